@@ -635,6 +635,14 @@ func (fc *FnCtx) execConvert(st *State, x *ssa.Convert) Val {
 		if fsigned == signed && bits >= fbits || (!fsigned && signed && bits > fbits) {
 			return fc.mkVal(v.T, x.Type())
 		}
+		if bits < fbits {
+			// a narrowing conversion silently drops high bits; functions marked `checked_conversions`
+			// (the encoders: a truncated length field cannot be decoded) must show that nothing is lost
+			if con := fc.eng.contracts[fc.eng.fnName(fc.curFn)]; con != nil && len(con.Extra["checked_conversions"]) > 0 {
+				lo, hi, _ := intRange(tb)
+				fc.oblige(st, "trunc", and(app("<=", lo, v.T), app("<=", v.T, hi)), x.Pos(), fmt.Sprintf("conversion %s -> %s loses no bits", fb.Name(), tb.Name()))
+			}
+		}
 		m := app("mod", v.T, pow2(bits))
 		if !signed {
 			return fc.mkVal(fc.sc.Define("cv", "Int", m), x.Type())
